@@ -42,9 +42,12 @@ pub fn gen_flow(
             }
             let raises = raises.into_iter().map(Result::unwrap).collect();
 
+            // The arms only cover the handled expression: afterwards, and inside the arms
+            // themselves, exactly what was caught before is caught again.
             let raises_before = env.raises_caught.clone();
-            let outer_env = generate(expr_or_stmt, &env.raises_caught(&raises), ctx, constr)?
-                .raises_caught(&raises_before);
+            let mut outer_env =
+                generate(expr_or_stmt, &env.raises_caught(&raises), ctx, constr)?;
+            outer_env.raises_caught = raises_before;
 
             constrain_cases(ast, &None, cases, &outer_env, ctx, constr)
         }
